@@ -143,6 +143,9 @@ pub fn make_app(cfg: &Cfg, mismatch: bool) -> App {
         .replicate::<S>()
         .replicate::<R>()
         .replicate::<ChildOf>();
+    if cfg.bundle {
+        app.replicate_bundle::<(X, Y)>();
+    }
     if cfg.sync {
         app.sync_related_entities::<ChildOf>();
     }
